@@ -4,6 +4,7 @@ Accepting every change gives the right document (as a value: ids and the order o
 change gives the left document without its attributes.
 -/
 import XmlDiffModel.Proofs.Fin4
+import XmlDiffModel.Proofs.RejAttr6
 import XmlDiffModel.Props.C01
 
 namespace XmlDiffModel
@@ -72,6 +73,41 @@ theorem pipeline (bis : Dmp.Bisect) (sim : Sim) (qn : QName) (cfg : Cfg) (L R : 
   refine ⟨script, final, s', out, after, hs, h1, h2, h3, ?_, h6⟩
   rw [h5]
   exact docEq_setTail _ _ _ (docEq_mapId _ σ final R hd)
+
+/-- **diff, format, finalize, reject - with the attributes**: the reject-all projection that decodes the attribute
+annotations (`rejFTA`) has the shape of the left document, and every node of it has the attributes of the left
+document's node with the same id - the value of a deleted attribute aside, which the markup does not record. -/
+theorem pipeline_attrs (bis : Dmp.Bisect) (sim : Sim) (qn : QName) (cfg : Cfg) (L R : Tree) (fresh : Nat) (ft : List Str)
+    (w : Bool) (hF : 0 < cfg.F)
+    (hclean : CleanT L) (hshort : AllP (ShortP w) L) (htag : AllP TagOK L) (hkL : L.payload.kind = .elem)
+    (hL : (ids L).Nodup) (hRn : (ids R).Nodup) (hdisj : ∀ i ∈ ids L, i ∉ ids R)
+    (hfL : ∀ i ∈ ids L, i < fresh) (hfR : ∀ i ∈ ids R, i < fresh)
+    (hR : ∀ x ∈ bfs R, (keys x.payload.attrs).Nodup ∧ XClean (fun k => isDiffKey k = false) x ∧ ShortP w x.payload ∧
+      TagOK x.payload)
+    (hLa : AllP (AttrFit.PairsP nameOKb valOKb) L)
+    (hRa : ∀ x ∈ bfs R, AttrFit.PairsOK nameOKb valOKb x.payload.attrs) :
+    ∃ script final s' out after,
+      scriptGen qn cfg L R (matchNodes cfg sim L R) fresh = .ok (script, final) ∧
+      runFmtE w bis qn (fstate0 L fresh ft [] w) script = .ok s' ∧
+      (∃ N, ∀ f, N ≤ f → undoElement f s'.ph diffElemList s'.tree = .ok (out, after)) ∧
+      bare (rejFTA out) = setTailT none (bare L) ∧
+      ∀ i p, payOf (rejFTA out) i = some p → ∃ q, payOf L i = some q ∧ AttrBack p.attrs q.attrs := by
+  have hroot : L.payload.kind = R.payload.kind := by
+    have hr : R ∈ bfs R := by
+      obtain ⟨x, hx, hid⟩ := bfs_covers R R.id (by cases R; simp [ids, Tree.id])
+      have h1 := bfs_sub R hRn x hx
+      rw [hid, find_self] at h1
+      injection h1 with h1
+      exact h1 ▸ hx
+    rw [hkL, (hR R hr).2.1.1]
+  have hA : ∀ x ∈ bfs R, (keys x.payload.attrs).Nodup := fun x hx => (hR x hx).1
+  have hC : ∀ x ∈ bfs R, x.payload.kind = .comment → x.payload.tag = [] := fun x hx hk => by
+    rw [(hR x hx).2.1.1] at hk; cases hk
+  have hM := matchNodes_good cfg sim L R hF hL hRn hroot
+  obtain ⟨script, final, nx, hs, _, _⟩ := C01_roundtrip qn cfg L R fresh sim hF hL hRn hdisj hfL hfR hroot hA hC
+  obtain ⟨s', out, after, h1, h2, h3, h4⟩ := differ_script_output_attrs bis qn cfg L R _ fresh script final ft w
+    hclean hshort htag hL hRn hdisj hfL hfR hM hR hLa hRa hs
+  exact ⟨script, final, s', out, after, hs, h1, h2, h3, h4⟩
 
 end Fin
 end XmlDiffModel
